@@ -204,6 +204,11 @@ func oracleC07(r *rig, res *scnResult) {
 					sig = "c07-passed-checkpoint-not-enforced"
 				} else if storedContradiction(r, t) >= 0 {
 					sig = "c07-checkpoint-contradiction-stored-before-check"
+					if s2, why := r1Signature(r, res, t); why != "" {
+						sig = s2
+						fail(sig, fmt.Sprintf("the longest chain holds block #%s at checkpoint height %d: %s", r.tree.name(row.Hash), hc, why), "checkpoint #"+fmt.Sprint(c), "#"+r.tree.name(row.Hash))
+						continue
+					}
 				}
 				fail(sig, fmt.Sprintf("the longest chain holds block #%s at checkpoint height %d", r.tree.name(row.Hash), hc), "checkpoint #"+fmt.Sprint(c), "#"+r.tree.name(row.Hash))
 			}
@@ -375,6 +380,117 @@ func storedContradiction(r *rig, t *tree) int {
 	return -1
 }
 
+
+// bestHonest: the honest reachable node with the most work (nil = none)
+func bestHonest(fs []nodeFinal) *nodeFinal {
+	var best *nodeFinal
+	for i := range fs {
+		f := &fs[i]
+		if !f.Honest || !f.Reachable {
+			continue
+		}
+		if best == nil || f.Cum.Cmp(best.Cum) > 0 {
+			best = f
+		}
+	}
+	return best
+}
+
+// locatorHeights: the heights LatestHeaderLocator lists for a tip at height h (tip, the ten before it, then doubling
+// steps, genesis = 0 last)
+func locatorHeights(h int) []int {
+	var out []int
+	step, n := 1, 0
+	for h > 0 {
+		out = append(out, h)
+		n++
+		if n > 10 {
+			step *= 2
+		}
+		h -= step
+	}
+	return append(out, 0)
+}
+
+// oneReplyWouldSuffice: the service's tip stands on a branch that contradicts a checkpoint STILL PENDING (stored before
+// it was compared: R1) and the best honest reachable node is a sync candidate. Would that node's FIRST answer to the
+// request the code is specified to send after the violator is dropped — getheaders(locator(tip), stop), stop = the
+// pending checkpoint's hash while the tip is BELOW its height, the zero hash once the tip has reached it — carry more
+// work than the tip (C06_fork's OneReplySuffices: the reply outweighs every stored branch)? Computed from the node's
+// chain, its cap and the table: the answer = the node's headers after the highest locator entry on its chain, at most
+// cap, up to the stop hash.
+func oneReplyWouldSuffice(r *rig, res *scnResult, t *tree, best *nodeFinal, bad int) (bool, string) {
+	if r.s.Engine != "legacy" || best == nil || best.TipIdx < 0 || bad < 0 {
+		return false, ""
+	}
+	tipIdx, ok := r.tree.byHashDisp(res.TipHash)
+	if !ok {
+		return false, ""
+	}
+	path := r.tree.pathTo(best.TipIdx)
+	tipH := r.tree.height[tipIdx]
+	if tipH <= len(path) && path[tipH-1] == tipIdx {
+		return false, "" // the tip is on the honest chain
+	}
+	// the tip's branch holds the contradicting header
+	onTipBranch := false
+	for _, idx := range r.tree.pathTo(tipIdx) {
+		if idx == bad {
+			onTipBranch = true
+		}
+	}
+	if !onTipBranch || len(path) < tipH { // a peer behind our height is no sync candidate
+		return false, ""
+	}
+	hc := r.tree.height[bad]
+	// fork point: the highest locator entry that is on the honest chain
+	f := 0
+	for _, h := range locatorHeights(tipH) {
+		if h == 0 {
+			break
+		}
+		row, ok := t.chain[int64(h)]
+		if ok && h <= len(path) && row.Hash == r.tree.disp[path[h-1]] {
+			f = h
+			break
+		}
+	}
+	cap := r.s.Nodes[best.ID].Cap
+	last := f + cap
+	if last > len(path) {
+		last = len(path)
+	}
+	bounded := tipH < hc
+	if bounded && last > hc {
+		last = hc
+	}
+	if last <= f {
+		return false, ""
+	}
+	if r.tree.cum[path[last-1]].Cmp(r.tree.cum[tipIdx]) <= 0 {
+		return false, ""
+	}
+	stop := "no stop hash (the tip has reached the pending checkpoint's height)"
+	if bounded {
+		stop = fmt.Sprintf("stop = the pending checkpoint (height %d)", hc)
+	}
+	return true, fmt.Sprintf("node %d's first answer to getheaders(locator(tip #%d at height %d), %s) would be its headers of heights %d..%d, which carry more work than the tip", best.ID, tipIdx, tipH, stop, f+1, last)
+}
+
+// r1Signature: the label of a failure whose root is a stored checkpoint contradiction. Finding R1 is the right label
+// only while the honest candidate's first answer to the correct request could NOT overtake the contradiction (it ties
+// within one reply, or the overshoot stall: the tip is already on the honest chain). When one reply WOULD suffice and
+// the service still sits on the violator's branch, the recovery itself is broken: a different, unlisted failure.
+func r1Signature(r *rig, res *scnResult, t *tree) (string, string) {
+	bad := storedContradiction(r, t)
+	fs := r.finals()
+	if ok, why := oneReplyWouldSuffice(r, res, t, bestHonest(fs), bad); ok {
+		return "c07-no-recovery-after-checkpoint-violator-although-one-reply-suffices",
+			"the service stays on the branch of the checkpoint-contradicting header #" + fmt.Sprint(bad) + " although " + why
+	}
+	return "c07-checkpoint-contradiction-stored-before-check", ""
+}
+
 // classifyC07: root causes of "does not converge after the event"
 func classifyC07(r *rig, res *scnResult, t *tree) (string, string) {
 	if res.Info["contradiction-of-passed-checkpoint"] == true {
@@ -386,6 +502,9 @@ func classifyC07(r *rig, res *scnResult, t *tree) (string, string) {
 	// checkpoints and the follow-up request goes backwards: the reply holds no new longest-chain header and the service
 	// stops asking.
 	if bad := storedContradiction(r, t); bad >= 0 {
+		if sig, why := r1Signature(r, res, t); why != "" {
+			return sig, why
+		}
 		return "c07-checkpoint-contradiction-stored-before-check",
 			fmt.Sprintf("the checkpoint-contradicting header #%d was stored before the mismatch was noticed (state %s); the honest chain cannot be completed", bad, t.by[r.tree.disp[bad]].State)
 	}
@@ -590,6 +709,65 @@ func genMismatch(rng *rand.Rand, o genOpts, engine string) *scn {
 	return s
 }
 
+
+// genRecover: the recovery after a checkpoint violator. The misbehaving node is the first sync peer; its branch forks
+// below the (single) pending checkpoint and its header X sits EXACTLY at the checkpoint height, delivered as the last
+// header of its answer (cap 2000): X is stored as the tip before it is compared, the node is dropped. The honest node
+// (stand-by, cap 2000, honours the stop hash) has a chain well beyond the checkpoint: its first answer to the request
+// startSync must send (no stop hash: the tip has reached the checkpoint height) overtakes X.
+func genRecover(rng *rand.Rand, o genOpts, engine string) *scn {
+	L := 8 + rng.Intn(o.MaxLen-7)
+	s := &scn{Engine: engine, Sched: "serial", Seed: rng.Int63n(1 << 30), Salt: rng.Uint32(), Parents: linearParents(L)}
+	c := 2 + rng.Intn(L-5)               // checkpoint height, at least 3 honest headers beyond it
+	f := c - 1 - rng.Intn(minInt(c-1, 3)) // last common height (0 = genesis); the evil branch is f+1 .. c
+	side := []int{}
+	for j := 0; j < c-f; j++ {
+		par := f - 1
+		if j > 0 {
+			par = len(s.Parents) - 1
+		}
+		s.Parents = append(s.Parents, par)
+		side = append(side, len(s.Parents)-1)
+	}
+	s.Bits = make([]uint32, len(s.Parents))
+	for i := range s.Bits {
+		s.Bits[i] = defaultBits
+	}
+	s.Cps = []int{c - 1}
+	if f >= 1 && rng.Intn(3) == 0 {
+		s.Init = seq(0, 1+rng.Intn(f))
+	}
+	evilPath := append(seq(0, f), side...)
+	s.Nodes = append(s.Nodes, scnNode{Path: evilPath, Pos: len(evilPath), Cap: 2000, Dir: "out", Honest: false, CloseAt: -1, StallAt: -1})
+	s.Nodes = append(s.Nodes, scnNode{Path: seq(0, L), Pos: L, Cap: 2000, Dir: "out", Honest: true, CloseAt: -1, StallAt: -1})
+	s.Steps = append(s.Steps, scnStep{Kind: "connect", Node: 0})
+	if rng.Intn(2) == 0 {
+		s.Steps = append(s.Steps, scnStep{Kind: "run"})
+	}
+	s.Steps = append(s.Steps, scnStep{Kind: "connect", Node: 1}, scnStep{Kind: "run"})
+	timePasses(s)
+	return s
+}
+
+func minInt(a, b int) int {
+	if a < b {
+		return a
+	}
+	return b
+}
+
+// c07Corpus: fixed scenarios that run first on every check.
+var c07Corpus = []struct {
+	Name string
+	Ops  []string
+}{
+	// the violator's header X5 at the pending checkpoint height 5 is the last header of its answer and becomes the tip;
+	// the stand-by honest node (8 headers) must be asked without a stop hash and its answer overtakes X5
+	{"recover-after-violator", []string{"c06 engine=legacy cpoff=0 cps=4 init= forbid= sched=serial seed=1 salt=7", "tree parents=0~7,3",
+		"node path=0..3,8 pos=5 cap=2000 dir=out honest=0", "node path=0..7 pos=8 cap=2000 dir=out honest=1",
+		"step connect 0", "step run", "step connect 1", "step run"}},
+}
+
 // genRunPast: two checkpoints c1 < c2 on the honest chain; the misbehaving node's branch matches c1, forks between them
 // and contradicts c2; it IGNORES the stop hash, so its first answer runs past c1 (the matching header is followed by
 // more new headers in the same message) and ends before c2; the contradiction arrives with a later answer. After the
@@ -657,7 +835,7 @@ func genRunPast(rng *rand.Rand, o genOpts, engine string) *scn {
 }
 
 func runC07(c *Ctx) error {
-	c.R.Rule = "scenario = honest chain + a misbehaving scripted node whose (otherwise conformant) chain contains a forbidden header at a random height or contradicts a checkpoint, reply caps 1/2/7/2000 and initial stores chosen so that the offending header lands at every batch position; optional second node pushing descendants of the forbidden header unsolicited; nodes that IGNORE the stop hash and run an answer past a matching checkpoint, the contradiction of the next checkpoint arriving with a later answer (or, rarely, the same one); 1..2 honest nodes; both engines; 0..n checkpoints; serial (trace compared with the Lean model) and free-running scheduling; non-trivial = the offending header was actually delivered"
+	c.R.Rule = "scenario = honest chain + a misbehaving scripted node whose (otherwise conformant) chain contains a forbidden header at a random height or contradicts a checkpoint, reply caps 1/2/7/2000 and initial stores chosen so that the offending header lands at every batch position; optional second node pushing descendants of the forbidden header unsolicited; recovery scenarios (the violator's header exactly at the pending checkpoint height as last header of its answer, a stand-by honest node with a long chain and a large cap); nodes that IGNORE the stop hash and run an answer past a matching checkpoint, the contradiction of the next checkpoint arriving with a later answer (or, rarely, the same one); 1..2 honest nodes; both engines; 0..n checkpoints; serial (trace compared with the Lean model) and free-running scheduling; non-trivial = the offending header was actually delivered"
 	l := newSyncModel(c)
 	defer l.Close()
 	if c.Replay != "" {
@@ -676,6 +854,23 @@ func runC07(c *Ctx) error {
 		return res.Err
 	}
 	replayKnownC06(c, "C07", oracleC07)
+	corpusErrs := 0
+	for _, cs := range c07Corpus {
+		s, err := parseScn(cs.Ops)
+		if err != nil {
+			return fmt.Errorf("corpus %s: %w", cs.Name, err)
+		}
+		res := runScenario("corpus-"+cs.Name, s, oracleC07)
+		if res.Err != nil {
+			res = runScenario("corpus-"+cs.Name+"-retry", s, oracleC07)
+		}
+		reportC07(c, res, &corpusErrs)
+		l.check(c, res)
+		c.R.Count("kind:corpus", 1)
+	}
+	if corpusErrs > 0 {
+		c.R.Fail(lib.Failure{Case: "corpus", What: "a corpus scenario could not be evaluated (rig error, see notes)", Signature: "c07-other:rig-error"})
+	}
 	rng := lib.Rng(c.Seed, "c07-scenarios")
 	o := genOpts{MaxLen: 30}
 	budget := 60 * time.Second
@@ -730,7 +925,10 @@ func runC07(c *Ctx) error {
 		}
 		var s *scn
 		kind := "forbidden"
-		if k := rng.Intn(10); k < 2 {
+		if k := rng.Intn(10); k == 9 {
+			kind = "recover"
+			s = genRecover(rng, o, "legacy")
+		} else if k < 2 {
 			kind = "runpast"
 			s = genRunPast(rng, o, engine)
 		} else if k < 5 {
